@@ -8,10 +8,10 @@
   References are `file: def name` (line numbers as of the tree the model was written against, they move with
   the owner's `fix:` commits).
 
-  Deviations of the pinned tree that are transcribed faithfully in ALG (SPEC keeps the property's meaning);
-  each has a region predicate at the end of the ALG section with the same name as in harness/props/C03.py:
-    byteswapNoRepeatPastEnd, setRangeAsSlice, setSliceIntStepRegion, setSliceIntNegStep,
-    setAllEmpty, emptyOperandBadPos.
+  The deviations of the pinned tree found while building this property (byteswap without repeat past `end`, rol/ror
+  on an empty range, overwrite with self, `set` over a `range`, integer assignment to a step −1 slice, `set()` on an
+  empty bitstring, empty operand at an invalid position, `replace(count=0)` unvalidated) were all repaired in /repo by
+  `fix:` commits; ALG transcribes the repaired code and ALG = SPEC holds without side conditions.
 -/
 import BitstringModel.Model.Basic
 import BitstringModel.Model.C01
@@ -419,13 +419,13 @@ def append (l : Bits) (b : Operand) : Bits := l ++ b.val l
 /-- `prepend` → `_append_lsb0` → `_addleft(bs)`: `bs._bitstore + self._bitstore`. -/
 def prepend (l : Bits) (b : Operand) : Bits := b.val l ++ l
 
-/-- `BitArray.insert` / `BitStream.insert` with an explicit `pos` (bitarray_.py: def insert). -/
+/-- `BitArray.insert` / `BitStream.insert` with an explicit `pos` (bitarray_.py: def insert; bitstream.py: def insert):
+    self-operand copied, position validated, then the empty-operand shortcut, then `_insert`. -/
 def insert (l : Bits) (b : Operand) (pos : Int) : Except Err Bits :=
-  let bs := b.val l
-  if bs.length = 0 then .ok l else            -- returns before the position is looked at
-  -- `if bs is self: bs = self._copy()` — same value
+  let bs := b.val l                               -- `if bs is self: bs = self._copy()` — same value
   let p := if pos < 0 then pos + (l.length : Int) else pos
   if ¬ (0 ≤ p ∧ p ≤ (l.length : Int)) then .error .value else
+  if bs.length = 0 then .ok l else
   _insert l bs p.toNat
 
 /-- `BitArray.overwrite` / `BitStream.overwrite` with an explicit `pos` (bitarray_.py: def overwrite;
@@ -433,9 +433,9 @@ def insert (l : Bits) (b : Operand) (pos : Int) : Except Err Bits :=
     `bs is self` branch of `_overwrite` is not reached from here. -/
 def overwrite (l : Bits) (b : Operand) (pos : Int) : Except Err Bits :=
   let bs := b.val l
-  if bs.length = 0 then .ok l else
   let p := if pos < 0 then pos + (l.length : Int) else pos
   if p < 0 ∨ p > (l.length : Int) then .error .value else
+  if bs.length = 0 then .ok l else
   _overwrite l (.lit bs) p.toNat
 
 /-- `__delitem__`: `self._bitstore.__delitem__(key)`. -/
@@ -471,21 +471,30 @@ def setLoop (v : Bool) : Bits → List Int → Outcome
     | .error e => ⟨.error e, l⟩
     | .ok l' => setLoop v l' ps
 
-/-- The `isinstance(pos, range)` fast path of `set`:
-    `self._bitstore.__setitem__(slice(pos.start, pos.stop, pos.step), v)`. -/
-def setRange (l : Bits) (v : Bool) (a b c : Int) : Except Err Bits :=
-  PyL.setSliceScalar l (some a) (some b) (some c) v
+/-- The `range` fast path of `set`, taken when the range is non-empty and its first and last elements are valid
+    non-negative indices: one slice from the first to the last element
+    (`slice(first, last + 1, step)` ascending, `slice(first, last - 1 if last > 0 else None, step)` descending). -/
+def setRangeFast (l : Bits) (v : Bool) (first last c : Int) : Except Err Bits :=
+  if c > 0 then PyL.setSliceScalar l (some first) (some (last + 1)) (some c) v
+  else PyL.setSliceScalar l (some first) (if last > 0 then some (last - 1) else none) (some c) v
 
 def set (l : Bits) (v : Bool) (p : PosArg) : Outcome :=
   match p with
   | .all =>
-    -- self._setint(-1 if value else 0): length taken from len(self); zero length is rejected
-    if l.length = 0 then ⟨.error .value, l⟩
+    -- if len(self) != 0: self._setint(-1 if value else 0)
+    if l.length = 0 then ⟨.ok .none, l⟩
     else ⟨.ok .none, intToBits l.length (if v then -1 else 0)⟩
   | .one i => setLoop v l [i]                     -- pos = (pos,)
   | .range a b c =>
     if c = 0 then ⟨.error .value, l⟩ else         -- range() itself raises
-    atomic l (setRange l v a b c)
+    let ps := Py.rangeList a b c
+    match ps.head?, ps.getLast? with
+    | some first, some last =>
+      -- isinstance(pos, range) and len(pos) > 0 and 0 <= pos[0] < len(self) and 0 <= pos[-1] < len(self)
+      if 0 ≤ first ∧ first < (l.length : Int) ∧ 0 ≤ last ∧ last < (l.length : Int) then
+        atomic l (setRangeFast l v first last c)
+      else setLoop v l ps
+    | _, _ => setLoop v l ps
   | .many ps => setLoop v l ps
 
 /-- `BitArray._setitem_slice` (bitarray_.py: def _setitem_slice). -/
@@ -495,17 +504,19 @@ def setSliceInt (l : Bits) (a b c : Option Int) (v : Int) : Except Err Bits :=
       let st := c.getD 1
       if st = 0 then .error .value else           -- key.indices() raises
       let r := Py.sliceIndices a b st l.length
-      -- self.set(value, range(*key.indices(len(self)))) — a range, so the fast path of `set`
-      setRange l (decide (v = 1)) r.1 r.2.1 st
+      -- self.set(value, range(*key.indices(len(self))))
+      let o := set l (decide (v = 1)) (.range r.1 r.2.1 st)
+      match o.ret with
+      | .error e => .error e
+      | .ok _ => .ok o.bits
     else .error .value
   else
-    -- s = self._bitstore.getslice(key.start, key.stop); length = len(s)     (the step is not used here)
-    match Py.getSlice l a b none with
+    -- length = len(range(*key.indices(len(self))))
+    let st := c.getD 1
+    let r := Py.sliceIndices a b st l.length
+    match intValue (Py.rangeLen r.1 r.2.1 st) v with
     | .error e => .error e
-    | .ok s =>
-      match intValue s.length v with
-      | .error e => .error e
-      | .ok bits => PyL.setSlice l a b c bits
+    | .ok bits => PyL.setSlice l a b c bits
 
 def setSliceBits (l : Bits) (a b c : Option Int) (v : Operand) : Except Err Bits :=
   PyL.setSlice l a b c (v.val l)
@@ -634,7 +645,7 @@ def byteswap (l : Bits) (f : Fmt) (s e : Option Int) (rep : Bool) : Except Err (
     | .ok sizes =>
       let total := 8 * sizes.sum
       if total = 0 then .ok (0, l) else
-      let finalbit := if rep then z else a + total
+      let finalbit := if rep then z else min (a + total) z
       let cnt := Py.rangeLen ((a + total : Nat) : Int) ((finalbit + 1 : Nat) : Int) (total : Int)
       match swapLoop cnt l sizes total (a + total) with
       | .error err => .error err
@@ -658,47 +669,6 @@ def ixor (l : Bits) (b : Operand) : Except Err Bits := C16.bxor l (b.val l)
 def clear (_ : Bits) : Bits := []
 
 end Alg
-
-/-! ## Regions where the pinned tree deviates from the property (decidable; same names as REGIONS in the harness) -/
-
-/-- `byteswap(fmt, start, end, repeat=False)` with a pattern that does not fit into `[start, end)`. -/
-def byteswapNoRepeatPastEnd (l : Bits) (f : Fmt) (s e : Option Int) (rep : Bool) : Bool :=
-  match validateSlice l.length s e with
-  | .error _ => false
-  | .ok (a, z) =>
-    match fmtSizes f a z with
-    | .error _ => false
-    | .ok sizes => !rep && 8 * sizes.sum != 0 && decide (z < a + 8 * sizes.sum)
-
-/-- `set(v, range(a, b, c))` is executed as the slice `[a:b:c]`; the region is where that differs from the
-    positions of the range (a bound that changes sign, a descending range down to index 0, a position out of range). -/
-def setRangeAsSlice (l : Bits) (a b c : Int) : Bool :=
-  c != 0 &&
-  !(((Py.rangeList a b c).all fun p => (PyL.normIdx l.length p).isSome) &&
-    (PyL.slicePositions (some a) (some b) c l.length ==
-      (Py.rangeList a b c).filterMap (PyL.normIdx l.length)))
-
-/-- `s[a:b:-1] = int` takes the width from `s[a:b]` (step +1). -/
-def setSliceIntNegStep (l : Bits) (a b c : Option Int) : Bool :=
-  c == some (-1) &&
-  (match Py.getSlice l a b none with
-   | .ok s => s.length
-   | .error _ => 0) != (PyL.slicePositions a b (-1) l.length).length
-
-/-- `s[a:b:c] = 0 | 1` with `|c| ≥ 2` goes through `set(v, range(*key.indices(len)))`, hence through the region above. -/
-def setSliceIntStepRegion (l : Bits) (a b c : Option Int) : Bool :=
-  match c with
-  | some st =>
-    st != 0 && st != 1 && st != -1 &&
-    setRangeAsSlice l (Py.sliceIndices a b st l.length).1 (Py.sliceIndices a b st l.length).2.1 st
-  | none => false
-
-/-- `set(v)` (all bits) of an empty bitstring. -/
-def setAllEmpty (l : Bits) (p : PosArg) : Bool := l.length == 0 && p == .all
-
-/-- `insert` / `overwrite` of an empty bitstring at an invalid position. -/
-def emptyOperandBadPos (l : Bits) (b : Operand) (pos : Int) : Bool :=
-  (b.val l).length == 0 && (Spec.insPos l.length pos).isNone
 
 /-! ## Operations as data; one step; histories -/
 
@@ -769,27 +739,10 @@ def stepSpec (l : Bits) : Op → Outcome
   | .ixor b => atomic l (C16.bxor l (b.val l))
   | .clear => ⟨.ok .none, Spec.clear l⟩
 
-/-- A step on which the pinned tree is known to deviate from the property (union of the regions). -/
-def Op.deviant (l : Bits) : Op → Bool
-  | .insert b pos => emptyOperandBadPos l b pos
-  | .overwrite b pos => emptyOperandBadPos l b pos
-  | .setSlice a b c (.int _) => setSliceIntNegStep l a b c || setSliceIntStepRegion l a b c
-  | .set _ (.range a b c) => setRangeAsSlice l a b c
-  | .set _ p => setAllEmpty l p
-  | .byteswap f s e rep => byteswapNoRepeatPastEnd l f s e rep
-  | _ => false
-
 /-- Operations that are not length-changing by definition. -/
 def Op.keepsLength : Op → Bool
   | .setItem _ (.int _) | .setSlice _ _ _ (.int _) | .reverse _ _ | .rol _ _ _ | .ror _ _ _
   | .set _ _ | .invert _ | .byteswap _ _ _ _ | .ishl _ | .ishr _ | .iand _ | .ior _ | .ixor _ => true
-  | _ => false
-
-/-- Operations that have no known-deviation region at all. -/
-def Op.neverDeviant : Op → Bool
-  | .append _ | .prepend _ | .delItem _ | .delSlice _ _ _ | .setItem _ _ | .setSlice _ _ _ (.bits _)
-  | .replace _ _ _ _ _ _ | .reverse _ _ | .rol _ _ _ | .ror _ _ _ | .invert _ | .set _ (.one _) | .set _ (.many _)
-  | .ishl _ | .ishr _ | .imul _ | .iand _ | .ior _ | .ixor _ | .clear => true
   | _ => false
 
 /-- A history: the outcome of every step, each step acting on the content the previous one left. -/
@@ -799,11 +752,6 @@ def run (step : Bits → Op → Outcome) : List Op → Bits → List Outcome
 
 def runAlg := run stepAlg
 def runSpec := run stepSpec
-
-/-- No step of the history (followed along the specification) lies in a known-deviation region. -/
-def goodRun : List Op → Bits → Bool
-  | [], _ => true
-  | op :: ops, l => !op.deviant l && goodRun ops (stepSpec l op).bits
 
 /-! ## driver -/
 
